@@ -179,6 +179,7 @@ func (t *Tree) intermediateAdd(path []string, value interface{}) error {
 		// Tree.
 		t.mu.RUnlock()
 		readerLocked = false
+		verifPoint("ctree.add.upgrade")
 		defer t.mu.Unlock()
 		t.mu.Lock()
 		return t.slowAdd(path, value)
